@@ -164,7 +164,7 @@ def naive_checks(tf, tzname):
 def worker(seed, tier, model_ok):
     _time.tzset()
     tf = C.import_tinyflux()
-    n = 700 if tier == "quick" else 7000
+    n = 700 if tier == "quick" else 40000
     cases = [gen_case(seed * 1000003 + i, i) for i in range(n)]
     probes = [["timestamps", "~"], ["valid"]]
     b = D.Batch(use_model=model_ok, use_spec=True, probes=probes, with_rebuild=True)
